@@ -43,6 +43,7 @@ type Contract struct {
 	Props    []string
 	Requires []*Clause
 	Ensures  []*Clause
+	TrustedEnsures []*Clause // assumed at call sites, not checked against the body (listed as assumptions)
 	Assumes  []*Clause // trusted facts assumed at entry of a verified func (listed as assumptions)
 	Modifies []*SX
 	Uses     []string
@@ -277,7 +278,7 @@ func (c *Contracts) loadContract(file string, f *SX) error {
 			ct.Results = atoms(e)[1:]
 		case "props":
 			ct.Props = atoms(e)[1:]
-		case "requires", "ensures", "assume", "crashinv", "fsframe":
+		case "requires", "ensures", "assume", "crashinv", "fsframe", "trusted-ensures":
 			cl, err := parseClause(file, e.Head(), e)
 			if err != nil {
 				return err
@@ -287,6 +288,8 @@ func (c *Contracts) loadContract(file string, f *SX) error {
 				ct.Requires = append(ct.Requires, cl)
 			case "ensures":
 				ct.Ensures = append(ct.Ensures, cl)
+			case "trusted-ensures":
+				ct.TrustedEnsures = append(ct.TrustedEnsures, cl)
 			case "assume":
 				ct.Assumes = append(ct.Assumes, cl)
 			case "crashinv":
